@@ -978,6 +978,15 @@ def _canonical_param_order(j):
                 perm = [ref_n.index(nm) for nm in cur_n]
                 if any(cur_t[i] != ref_t[perm[i]] for i in range(n)):
                     perm = None
+            if perm is None:
+                # equally typed parameters keep their relative order (the summary fingerprint, where available, overrides
+                # this later)
+                slots = {}
+                for k, ty in enumerate(ref_t):
+                    slots.setdefault(ty, []).append(k)
+                perm = []
+                for ty in cur_t:
+                    perm.append(slots[ty].pop(0))
         if perm is None or perm == list(range(n)):
             continue
         perms[b['path']] = perm
